@@ -927,6 +927,12 @@ func (r *Replica) processEntriesWithoutStateTransitions(response *replication_pr
 	// Apply the entries
 	maxSeq, hasGap, err := r.batchApplier.ApplyEntries(entries, r.applyEntry)
 	if err != nil {
+		// Entries in front of the failure stay applied
+		r.mu.Lock()
+		if maxSeq > r.lastAppliedSeq {
+			r.lastAppliedSeq = maxSeq
+		}
+		r.mu.Unlock()
 		if hasGap {
 			// Handle gap by requesting retransmission
 			fmt.Printf("Sequence gap detected, requesting retransmission\n")
@@ -1025,6 +1031,12 @@ func (r *Replica) processEntries(response *replication_proto.WALStreamResponse) 
 	// Apply the entries
 	maxSeq, hasGap, err := r.batchApplier.ApplyEntries(entries, r.applyEntry)
 	if err != nil {
+		// Entries in front of the failure stay applied
+		r.mu.Lock()
+		if maxSeq > r.lastAppliedSeq {
+			r.lastAppliedSeq = maxSeq
+		}
+		r.mu.Unlock()
 		if hasGap {
 			// Handle gap by requesting retransmission
 			fmt.Printf("Sequence gap detected, requesting retransmission\n")
